@@ -263,6 +263,7 @@ func checkC11(c *Ctx) {
 	checkC11JoinRefs(c)
 	checkC11AllParents(c)
 	checkC11JoinNull(c)
+	checkC11KeyVerbatim(c)
 
 	// ---- key-func ----
 	rf := c.Rule("C11.key-func", "identity maps are written and read through one key function", 4)
